@@ -169,6 +169,58 @@ def run(chk):
                       "a": {"allowed": [list(b) for b in res] or [["-"]]},
                       "text": {"pre": str(total)[:300], "post": str(res)}}
                 chk.add_event(ev)
+    # allowed_spin_blocks with target strings in non-canonical order
+    from adcgen.sympy_objects import AntiSymmetricTensor, Amplitude
+    i, j, k, a, b, c = get_symbols("ijkabc")
+    structured = [
+        Amplitude("t1", (a, c), (j, k)) * AntiSymmetricTensor(tn.eri, (k, b), (i, c), 1),
+        AntiSymmetricTensor(tn.eri, (i, j), (a, b), 1),
+        Amplitude("t1", (a, b), (i, k)) * AntiSymmetricTensor(tn.eri, (k, c), (j, c), 1),
+        Amplitude("t2", (a,), (i,)) * Amplitude("t2", (b,), (j,)),
+    ]
+    orders = ["iajb", "ijab", "aibj", "abij", "jbia", "ibja"]
+    for x0 in structured:
+        for tstr in (orders if not quick else r.sample(orders, 3) + ["iajb"]):
+            tsyms = get_symbols(tstr)
+            expr = Expr(x0, real=True, target_idx=tsyms)
+            res, exc = guarded(allowed_spin_blocks, expr, tstr)
+            chk.count("allowed_spin_blocks_calls")
+            what = f"allowed_spin_blocks({x0}, '{tstr}')"
+            if exc:
+                chk.report_direct("spin_blocks:exception", f"{what} raised "
+                                  f"{exc['type']}: {exc['msg']}", exc)
+                continue
+            ctx = adapter.Ctx()
+            pre = adapter.project_expr(Expr(x0, real=True, target_idx=tsyms), ctx)
+            tgt = [ctx.index(s_) for s_ in tsyms]
+            adapter.fill_order(pre, tgt)
+            bkn = events.collect_bk(ctx, [(pre, True)], (tn.eri, tn.fock))
+            ev = {"op": "spin_blocks", "key": "spin_blocks:ordered-targets",
+                  "what": what, "idx": ctx.idx, "tgt": tgt,
+                  "names": ctx.name_list(),
+                  "models": spin_models(ctx, bkn, False, seeds=(1,)),
+                  "pre": pre, "post": [],
+                  "tabhint": build.table_hint([pre], ctx, tgt, (2, 2), True),
+                  "a": {"allowed": [list(b_) for b_ in res] or [["-"]]},
+                  "text": {"pre": str(x0), "post": str(res)}}
+            chk.add_event(ev)
+            # and the integration for a spin string that is only allowed in
+            # the given (not the canonical) order
+            tspin = r.choice(["aabb", "abab", "abba", "bbaa"])
+            expr = Expr(x0, real=True, target_idx=tsyms)
+            pre_copy = Expr(expr.sympy, **expr.assumptions)
+            res2, exc = guarded(transform_to_spatial_orbitals, expr, tstr,
+                                tspin, False, False)
+            chk.count("transform_calls")
+            if exc:
+                chk.report_direct("spin:unrestricted:exception", f"transform("
+                                  f"{x0}, '{tstr}', '{tspin}') raised "
+                                  f"{exc['type']}: {exc['msg']}", exc)
+            else:
+                spin_event(chk, pre_copy, res2, tstr, tspin, False,
+                           "spin:ordered-targets",
+                           f"transform_to_spatial_orbitals({x0}, '{tstr}', "
+                           f"'{tspin}')")
     # the spin blocks declared for registered intermediates
     avail = Intermediates().available
     for name in (["t2_1", "t1_2", "t2_2", "p0_2_oo", "p0_2_vv"] if quick else
